@@ -169,3 +169,10 @@ more('C17', 'pairing rule on sampled outcomes', 'C17.g outcomes and weights stay
 more('C18', 'flattening-order table', 'C18.h result storage flattens and rebuilds in index order only')
 more('C19', 'interpretation of PhasedXZGate._qasm_, of ClassicallyControlledOperation._qasm_ and of SympyCondition._qasm_ on model values',
      'C19.f PhasedXZ export == Z^z Z^a X^x Z^-a up to phase; C19.g every statement of a conditioned operation carries the condition; C19.h condition constants in register bit order, measured qubit i in bit i')
+
+# round 4/5: general rules on the functions attributed to each property (sa/props/general.py)
+for _pid in ('C01', 'C02', 'C03', 'C04', 'C05', 'C06', 'C07', 'C08', 'C09', 'C10', 'C11', 'C12', 'C13', 'C14', 'C16', 'C17', 'C18', 'C19', 'C20'):
+    more(_pid, 'general sibling-agreement / option-forwarding / ordered-pairing / presence-vs-truthiness rules over the functions attributed to the property (name hints, anchors, directory owner)',
+         f'{_pid}.z_fwd sibling calls in exclusive branches forward the same parameters; {_pid}.z_drop no wrapper swallows an option its callee accepts; '
+         f'{_pid}.z_pair positional pairing only over ordered collections, enumerate-index only on data in the same order; {_pid}.z_get presence of a key is not decided by truthiness of the value')
+more('C07', 'annotation-driven argument rule', 'C07.e (generalised) a value handed to a callable annotated to receive the CircuitOperation of a merged component is a fresh wrapper or guarded by the transformer\'s own tag')
